@@ -237,6 +237,76 @@ META = {
         detected_by={"C10": "order_independent (second/third call on the same minerals), now also minerals_not_mutated"},
         strengthening="explicit minerals_not_mutated oracle",
     ),
+    "C11b": dict(
+        summary="'preserve input dtype' refactor: voigt_to_elastic_tensor allocates np.empty(..., dtype=matrix.dtype) and rotate np.zeros_like(tensor): integer stiffness data is accumulated in int64 and truncated",
+        needs="an integer-dtype Voigt matrix / tensor (a table typed without decimal points) and a rotation that is not a signed axis permutation",
+        detected_before_strengthening=False,
+        detected_by={"C11": "dtype_independent (the same numbers as int64 / float32 / float64)"},
+        strengthening="every fifth C11 case repeats the conversions and the rotation with int64 and float32 copies of the input",
+    ),
+    "C12b": dict(
+        summary="elasticity_components: index_vij = 0 moved out of the per-axis loop: an axis with no deviatoric eigenvector within 10 degrees reuses the previous axis's signed index",
+        needs="a well-conditioned tensor whose dilatational and deviatoric eigenframes are > 10 degrees apart for one axis (e.g. two-phase aggregates); never orthorhombic tensors",
+        detected_before_strengthening=True,
+        detected_by={"C12": "hexagonal_axis_unit, percentages_in_range, frame_independent_scalars on Voigt averages of few-grain textures"},
+        strengthening=None,
+    ),
+    "C13b": dict(
+        summary="finite_strain returns sqrt(max(lambda_max, 1.0)) - 1 ('clip spurious negative strain')",
+        needs="a deformation gradient whose principal stretches are all below 1 (volume-decreasing F)",
+        detected_before_strengthening=True,
+        detected_by={"C13": "finite_strain_equals_svd (random F = I + 1.5 N(0,1) includes contracting gradients)"},
+        strengthening=None,
+    ),
+    "C14b": dict(
+        summary="misorientation_hist bins with an integer-part np.bincount(...)[:theta_max] fast path: the last bin becomes half-open and an angle exactly equal to theta_max is dropped",
+        needs="at least one pair of grains misoriented by exactly the maximum admissible angle (triclinic: grains related by a half turn)",
+        detected_before_strengthening=False,
+        detected_by={"C14": "halfturn_equals_reference / halfturn_range"},
+        strengthening="new case class: textures made of half-turn twins (all pair angles exactly 0 or 180 degrees), value and range against the independent reference",
+    ),
+    "C15b": dict(
+        summary="resample_orientations draws in blocks of 2**17 with n_blocks = max(1, n_samples // block): the last partial block of the np.empty output is never filled",
+        needs="n_samples > 131072 and not a multiple of 131072",
+        detected_before_strengthening=True,
+        detected_by={"C15": "post:membership_and_pairing, law:* (law cases use 2e5 / 1e6 samples)"},
+        strengthening=None,
+    ),
+    "C16b": dict(
+        summary="read_scsv skips lines with `not line.strip()` instead of `line == '\\n'`: data rows consisting only of whitespace are dropped",
+        needs="a whitespace delimiter (space/tab), >= 2 columns and a row in which every cell is written empty",
+        detected_before_strengthening=True,
+        detected_by={"C16": "roundtrip_values (column length) -- possible because space and tab delimiters entered the domain with repair 578b612"},
+        strengthening=None,
+    ),
+    "C17b": dict(
+        summary="helper _npz_keys(postfix) and the append-vs-overwrite branch of save test `if postfix` instead of `if postfix is not None`: postfix 0 or '' is treated as no postfix and np.savez replaces the whole archive",
+        needs="a falsy, non-None postfix (integer 0 or the empty string) saved after other minerals into the same archive",
+        detected_before_strengthening=False,
+        detected_by={"C17": "archive_keys_conserved, from_file_restores_exactly, load_restores_exactly"},
+        strengthening="integer postfixes (0, 1, 2, 17) and the empty string in the postfix pool",
+    ),
+    "C18b": dict(
+        summary="_corner_2d hoists h**2 + v**2 into r2 = x[0]**2 + x[1]**2 + x[2]**2 (full 3-D norm)",
+        needs="the corner-flow velocity evaluated at a position with non-zero out-of-plane coordinate",
+        detected_before_strengthening=True,
+        detected_by={"C18": "gradient_equals_jacobian, velocity_divergence_free (sample points carry a random out-of-plane coordinate)"},
+        strengthening=None,
+    ),
+    "C19b": dict(
+        summary="_parse_config_params validates/converts initial_olivine_fabric only if olivine is in the phase assemblage",
+        needs="an enstatite-only assemblage together with an explicit initial_olivine_fabric key",
+        detected_before_strengthening=True,
+        detected_by={"C19": "config_defaults_and_values / config_invariants (assemblage and fabric keys are drawn independently)"},
+        strengthening=None,
+    ),
+    "C20b": dict(
+        summary="point_density: totals = np.maximum(totals, 0) / totals.mean()  (clip before normalising, divide by the mean of the unclipped estimates)",
+        needs="a negative grid mean of the raw estimates (small scalar weights, Schmidt kernel with weights < 1, a single datum with the exponential kernel)",
+        detected_before_strengthening=False,
+        detected_by={"C20": "density_equals_clipped_reference, density_finite_nonnegative_in_disk"},
+        strengthening="negative grid means are no longer skipped as degenerate; small weights (0.01-0.3) and single-datum sets added",
+    ),
 }
 
 
